@@ -20,13 +20,28 @@
 #include <urcu/urcu-mb.h>
 #elif defined(FLAVOR_BP)
 #include <urcu/urcu-bp.h>
+#elif defined(FLAVOR_QSBR)
+#include <urcu/urcu-qsbr.h>
 #endif
+#ifdef FLAVOR_QSBR
+/* qsbr: a registered thread is inside a read-side section whenever it is online; sections end at quiescent states, and a thread that
+ * waits for other threads must be offline meanwhile */
+#define RDL()		do { } while (0)
+#define RDU()		rcu_quiescent_state()
+#define WAIT_BEGIN()	rcu_thread_offline()
+#define WAIT_END()	rcu_thread_online()
+#else
 #define RDL()		rcu_read_lock()
 #define RDU()		rcu_read_unlock()
+#endif
 #define SYNC()		synchronize_rcu()
 #define REG()		rcu_register_thread()
 #define UNREG()		rcu_unregister_thread()
 #define THE_FLAVOR	(&rcu_flavor)
+#endif
+#ifndef WAIT_BEGIN
+#define WAIT_BEGIN()	do { } while (0)
+#define WAIT_END()	do { } while (0)
 #endif
 #include <urcu/rculfhash.h>
 #include "rculfhash-internal.h"
@@ -386,6 +401,7 @@ static int settle(void)
 	if (vrt_param("nosettle", 0))
 		return 1;	/* lazily queued resizes stay pending: the worker only runs if this thread blocks; it is parked in the
 				 * same place in every such state (the number of queued, idempotent work items is not part of the key) */
+	WAIT_BEGIN();
 	for (i = 0; i < 60; i++) {
 		int busy;
 
@@ -398,10 +414,12 @@ static int settle(void)
 			vrt_yield();
 			if (ht_size_quiet() != s0)
 				vrt_witness(W_LAZY_RESIZED);
+			WAIT_END();
 			return 1;
 		}
 		vrt_yield();
 	}
+	WAIT_END();
 	return 0;
 }
 
@@ -626,8 +644,10 @@ static void run_seq(void)
 				destroyed = 1;
 				vrt_witness(W_SEQ_DESTROYED);
 				if (cfg_flags & CDS_LFHT_AUTO_RESIZE)
+					WAIT_BEGIN();
 					while (!vrt_is_freed(ht))	/* teardown is queued behind pending resizes */
 						vrt_yield();
+					WAIT_END();
 				VRT_CHECK(vrt_is_freed(ht), "%s: table memory not released", what);
 				if (cfg_custom)
 					VRT_CHECK(vrt_note_get(N_LIVE) == 0, "%s: %lu blocks of the custom allocator leaked", what,
@@ -1087,7 +1107,7 @@ static void run_conc(void)
 	run_prog(0);
 	for (t = 1; t <= nthreads_prog; t++)
 		if (progs[t])
-			pthread_join(th[t], NULL);
+			{ WAIT_BEGIN(); pthread_join(th[t], NULL); WAIT_END(); }
 	{
 		int expect = 1 + (progs[1] != 0) + (progs[2] != 0) + (progs[3] != 0) + ((cfg_flags & CDS_LFHT_AUTO_RESIZE) ? 1 : 0);
 
@@ -1142,12 +1162,14 @@ static void run_conc(void)
 		if (cfg_flags & CDS_LFHT_AUTO_RESIZE) {
 			int i;
 
+			WAIT_BEGIN();
 			while (!vrt_is_freed(ht))
 				vrt_yield();
 			/* let the resize worker run until it is parked again: whatever it still had to do for this table (the tail of a
 			 * resize callback, queued work items) must not touch the released table */
 			for (i = 0; i < 4; i++)
 				vrt_yield();
+			WAIT_END();
 		}
 	}
 }
